@@ -318,7 +318,94 @@ def g_ctx(tier):
         if not assume: yield mkprog('deep/' + pid + '/b', b)
 
 
+def g_bare(tier):
+    """statement forms without braces: `if (c) break;` / `if (c) continue;` have their own code path (a single conditional branch to the
+    loop label), `while (c) ;` is generated as a do-while; grouped case labels"""
+    conds = [('eq', lambda: B('==', V('va'), V('vb'))), ('lt3', lambda: B('<', V('va'), C(3))), ('X', lambda: X), ('not', lambda: Un('!', V('va'))), ('land', lambda: B('&&', V('va'), V('vb'))),
+             ('lor', lambda: B('||', V('va'), V('vb'))), ('w256', lambda: B('==', V('wa'), C(256))), ('bit', lambda: B('&', V('va'), C(1))), ('ge', lambda: B('>=', V('vc'), V('va'))), ('le', lambda: B('<=', V('vc'), V('va'))),
+             ('preinc', lambda: Inc('++', True, V('vb'))), ('aX', lambda: Index('arr', X)), ('wlt', lambda: B('<', V('wa'), V('wb'))), ('k1', lambda: C(1)), ('k0', lambda: C(0)), ('call', lambda: Call('f', [V('va')]))]
+    inc = lambda n: ExprS(Inc('++', False, V(n)))
+    dec = lambda n: ExprS(Inc('--', False, V(n)))
+    for (cn, c), kind in itertools.product(conds, ['break', 'continue']):
+        J = (lambda: Break()) if kind == 'break' else (lambda: Continue())
+        init = [A(V('vd'), C(3))]
+        fn = [F1()] if cn == 'call' else []
+        mk = lambda pid, st: mkprog('deep/bare/%s/%s/%s' % (kind, pid, cn), st, funcs=fn)
+        yield mk('while', init + [While(V('vd'), Block([dec('vd'), If(c(), J(), bare=True), inc('vc')]))])
+        yield mk('while-first', init + [While(V('vd'), Block([If(c(), J(), bare=True), dec('vd'), inc('vc')]))] if kind == 'break' else init + [While(V('vd'), Block([dec('vd'), inc('sb'), If(c(), J(), bare=True)]))])
+        yield mk('for', [For(Assign(V('vd'), '=', C(0)), B('<', V('vd'), C(3)), Inc('++', False, V('vd')), Block([If(c(), J(), bare=True), inc('vc')]))])
+        yield mk('for-bare', [For(Assign(V('vd'), '=', C(0)), B('<', V('vd'), C(3)), Inc('++', False, V('vd')), If(c(), J(), bare=True), bare=True), inc('vc')])
+        yield mk('forY', [For(Assign(Y, '=', C(3)), Y, Inc('--', False, Y), Block([If(c(), J(), bare=True), inc('vc')]))])
+        yield mk('do', init + [DoWhile(Block([If(c(), J(), bare=True), inc('vc')]), Inc('--', True, V('vd')))])
+        yield mk('do-two', init + [DoWhile(Block([If(c(), J(), bare=True), inc('vc'), If(B('==', V('vc'), C(7)), J(), bare=True), inc('sb')]), Inc('--', True, V('vd')))])
+        yield mk('inner', [For(Assign(V('sc'), '=', C(0)), B('<', V('sc'), C(2)), Inc('++', False, V('sc')), Block(init + [While(V('vd'), Block([dec('vd'), If(c(), J(), bare=True), inc('vc')])), inc('wc')]))])
+        yield mk('outer', init + [While(V('vd'), Block([dec('vd'), For(Assign(X, '=', C(0)), B('<', X, C(2)), Inc('++', False, X), inc('wc'), bare=True), If(c(), J(), bare=True), inc('vc')]))])
+        yield mk('switch', init + [While(V('vd'), Block([dec('vd'), Switch(V('vd'), [(1, [If(c(), J(), bare=True), inc('vc'), Break()]), (None, [inc('wc')])]), inc('sb')]))])
+    one, two = (lambda: A(V('vc'), C(1))), (lambda: A(V('vc'), C(2)))
+    m3 = lambda n: A(V(n), B('&', V(n), C(3)))
+    yield mkprog('deep/bare/if', [If(V('va'), one(), bare=True), inc('vd')])
+    yield mkprog('deep/bare/ifelse', [If(V('va'), one(), two(), bare=True), inc('vd')])
+    yield mkprog('deep/bare/ifelseif', [If(V('va'), one(), If(V('vb'), two(), A(V('vc'), C(3)), bare=True), bare=True), inc('vd')])
+    yield mkprog('deep/bare/dangling', [If(V('va'), If(V('vb'), one(), two(), bare=True), bare=True), inc('vd')])
+    yield mkprog('deep/bare/while', [m3('va'), While(V('va'), dec('va'), bare=True), inc('vd')])
+    yield mkprog('deep/bare/for', [For(Assign(V('va'), '=', C(0)), B('<', V('va'), C(3)), Inc('++', False, V('va')), A(V('vb'), V('va'), '+='), bare=True), inc('vd')])
+    yield mkprog('deep/bare/do', [m3('va'), DoWhile(inc('vb'), Inc('--', False, V('va')) if False else B('!=', Inc('--', True, V('vd')), C(0)), bare=True)]) if False else mkprog('deep/bare/do', [A(V('vd'), C(3)), DoWhile(inc('vb'), Inc('--', True, V('vd')), bare=True), inc('vc')])
+    yield mkprog('deep/bare/nested-loops', [For(Assign(X, '=', C(0)), B('<', X, C(2)), Inc('++', False, X), For(Assign(Y, '=', C(0)), B('<', Y, C(2)), Inc('++', False, Y), inc('vb'), bare=True), bare=True), inc('vc')])
+    yield mkprog('deep/bare/empty-while-predec', [A(X, C(3)), While(Inc('--', True, X), Empty(), bare=True), inc('vc')])
+    yield mkprog('deep/bare/empty-while-ne', [A(Y, B('&', Y, C(3))), While(B('!=', Inc('++', True, Y), C(4)), Empty(), bare=True), inc('vc')])
+    yield mkprog('deep/bare/empty-for', [For(Assign(X, '=', C(0)), B('!=', X, C(4)), Inc('++', False, X), Empty(), bare=True), inc('vc')])
+    yield mkprog('deep/bare/empty-for-arr', [For(Assign(X, '=', C(0)), B('&&', B('<', X, C(3)), Index('arr', X)), Inc('++', False, X), Empty(), bare=True), A(V('vc'), X)])
+    yield mkprog('deep/bare/empty-if', [If(V('va'), Empty(), two(), bare=True), inc('vd')])
+    yield mkprog('deep/bare/empty-else', [If(V('va'), one(), Empty(), bare=True), inc('vd')])
+    yield mkprog('deep/bare/empty-do', [A(V('vd'), C(3)), DoWhile(Empty(), Inc('--', True, V('vd')), bare=True), inc('vc')])
+    for sn, sel in (('va', lambda: V('va')), ('X', lambda: X), ('aY', lambda: Index('arr', Y)), ('va&7', lambda: B('&', V('va'), C(7))), ('wa', lambda: V('wa')), ('sa', lambda: V('sa'))):
+        yield mkprog('deep/switch/group/' + sn, [Switch(sel(), [(1, []), (2, [A(V('vb'), C(1)), Break()]), (3, []), (4, []), (5, [A(V('vb'), C(2)), Break()]), (None, [A(V('vb'), C(3))])]), inc('vc')])
+        yield mkprog('deep/switch/group-fall/' + sn, [Switch(sel(), [(0, [inc('vb')]), (1, []), (2, [inc('vb')]), (7, []), (200, [inc('vb'), Break()]), (None, [A(V('vb'), C(9))])]), inc('vc')])
+        yield mkprog('deep/switch/group-last/' + sn, [Switch(sel(), [(1, [A(V('vb'), C(1)), Break()]), (2, []), (3, [A(V('vb'), C(2))])]), inc('vc')])
+        yield mkprog('deep/switch/group-default/' + sn, [Switch(sel(), [(1, []), (None, [A(V('vb'), C(1)), Break()]), (2, [A(V('vb'), C(2))])]), inc('vc')])
+        yield mkprog('deep/switch/default-first/' + sn, [Switch(sel(), [(None, [A(V('vb'), C(1)), Break()]), (2, [A(V('vb'), C(2)), Break()]), (3, [A(V('vb'), C(3))])]), inc('vc')])
+        yield mkprog('deep/switch/nested/' + sn, [Switch(sel(), [(1, [Switch(V('vd'), [(1, [A(V('vb'), C(11)), Break()]), (None, [A(V('vb'), C(12))])]), Break()]), (2, [A(V('vb'), C(2))]), (None, [A(V('vb'), C(3))])]), inc('vc')])
+        yield mkprog('deep/switch/in-for-continue/' + sn, [For(Assign(V('vd'), '=', C(0)), B('<', V('vd'), C(3)), Inc('++', False, V('vd')), Block([Switch(sel(), [(1, [Continue()]), (2, [inc('vb'), Break()]), (None, [inc('sb')])]), inc('vc')]))])
+
+
+def g_nasg(tier):
+    """an assignment used as a value inside a binary operation, for every (destination, source) kind"""
+    D = [('X', lambda: X), ('Y', lambda: Y), ('aX', lambda: Index('arr', X)), ('aY', lambda: Index('arr', Y)), ('pY', lambda: Index('pp', Y)), ('vc', lambda: V('vc')), ('a1', lambda: Index('arr', C(1))), ('wc', lambda: V('wc'))]
+    S = [('X', lambda: X), ('Y', lambda: Y), ('bX', lambda: Index('brr', X)), ('bY', lambda: Index('brr', Y)), ('pY', lambda: Index('pq', Y)), ('vd', lambda: V('vd')), ('k3', lambda: C(3)), ('sum', lambda: B('+', V('vd'), C(1)))]
+    for (dn, d), (sn, s), op in itertools.product(D, S, ['+', '-']):
+        if dn == sn: continue
+        for on, outer in (('va', lambda: V('va')), ('sa', lambda: V('sa'))):
+            pid = 'deep/nasg/%s=vb%s(%s=%s)' % (on, op, dn, sn)
+            if not keep(pid, tier, 50): continue
+            yield mkprog(pid, [A(outer(), B(op, V('vb'), Assign(d(), '=', s())))])
+        if keep('deep/nasg/cond/%s=%s' % (dn, sn), tier, 40) and op == '+':
+            yield mkprog('deep/nasg/cond/%s=%s' % (dn, sn), [If(B('<', Assign(d(), '=', s()), V('vb')), A(V('va'), C(1)), A(V('va'), C(2)))])
+            yield mkprog('deep/nasg/truth/%s=%s' % (dn, sn), [If(Assign(d(), '=', s()), A(V('va'), C(1)), A(V('va'), C(2)))])
+            yield mkprog('deep/nasg/arg/%s=%s' % (dn, sn), [A(V('va'), Call('f', [Assign(d(), '=', s())]))], funcs=[F1()])
+            yield mkprog('deep/nasg/chain/%s=%s' % (dn, sn), [A(V('va'), Assign(V('sb'), '=', Assign(d(), '=', s())))])
+
+
+def g_regconst(tier):
+    """a register loaded with a constant and then compared with a constant: the optimiser decides the branch itself"""
+    for rn, k, k2, op in itertools.product(('X', 'Y'), (0, 3, 255), (0, 3, 4, 255), ('==', '!=', '<', '>=')):
+        R = lambda: V(rn)
+        one, two = (lambda: A(V('vc'), C(1))), (lambda: A(V('vc'), C(2)))
+        base = 'deep/regconst/%s=%d/%s%d' % (rn, k, op, k2)
+        yield mkprog(base + '/if', [A(R(), C(k)), If(B(op, R(), C(k2)), one(), two())])
+        if not keep(base, tier, 50): continue
+        yield mkprog(base + '/ifnoelse-reload', [A(R(), C(k)), If(B(op, R(), C(k2)), A(R(), V('vb'))), A(V('vd'), R())])
+        yield mkprog(base + '/gap', [A(R(), C(k)), A(V('va'), C(7)), If(B(op, R(), C(k2)), one(), two())])
+        yield mkprog(base + '/other-reload', [A(R(), C(k)), If(B(op, R(), C(k2)), A(V('Y' if rn == 'X' else 'X'), V('vb'))), A(V('vd'), R())])
+        yield mkprog(base + '/for', [A(V('vc'), C(0)), For(Assign(R(), '=', C(k)), B(op, R(), C(k2)), Inc('++', False, R()), Block([ExprS(Inc('++', False, V('vc'))), If(B('==', V('vc'), C(3)), Break(), bare=True)]))])
+        yield mkprog(base + '/while', [A(V('vc'), C(0)), A(R(), C(k)), While(B(op, R(), C(k2)), Block([ExprS(Inc('--', False, R())), ExprS(Inc('++', False, V('vc'))), If(B('==', V('vc'), C(3)), Break(), bare=True)]))])
+        yield mkprog(base + '/twice', [A(R(), C(k)), If(B(op, R(), C(k2)), one(), two()), If(B(op, R(), C(k2)), A(V('vd'), C(1)), A(V('vd'), C(2)))])
+        yield mkprog(base + '/and', [A(R(), C(k)), If(B('&&', B(op, R(), C(k2)), V('va')), one(), two())])
+
+
 def g_deep(tier):
+    yield from g_regconst(tier)
+    yield from g_bare(tier)
+    yield from g_nasg(tier)
     yield from g_ctx(tier)
     yield from g_nest(tier)
     yield from g_asg(tier)
